@@ -69,3 +69,30 @@ example : actionMask (fun a => checkValidK (envOf exVn (fun _ => { exBind 0 with
     = some [false, false] := by decide
 
 end Primaite.Request
+
+/-! ### for the REGENERATED schema and action templates: an action on present components is masked only by its own guards -/
+namespace Primaite.Request
+open Primaite.Guards Primaite.Schema
+open Primaite.Gen.RequestSchema (schema)
+open Primaite.Gen.ActionTemplates (templates)
+
+/-- If the parameters of an action (any regenerated template, any component class it can address) name PRESENT components and the
+mask still marks it unavailable, then one of THAT ACTION'S documented guards (`expectedGuards`, the contract table) is false —
+its specification, on the component its validator is bound to, for the options of this request.  (The other reason for a 0 bit,
+"its target does not exist", is the negation of `present`.) -/
+theorem C11_present_action_masked_only_by_its_own_guard (vn : VId → Validator) (bind : VId → VSelf)
+    (inv : Inv) (kids : Kids) (hinst : Inst schema vn rootMgr inv kids) (t : Template) (ht : t ∈ templates) (c : String)
+    (hc : c ∈ addressable schema t) (ρ : String → Key)
+    (hpres : present schema (pickNode schema c) rootMgr inv t.segs ρ = true)
+    (h : checkValidK (envOf vn bind none) kids (instantiate ρ t.segs) = false) :
+    ∃ args a v, a ∈ (if t.fallback then [] else expectedGuards t.action) ∧ a ∈ vn v ∧ holds a (bind v) args none = false := by
+  rw [C11_mask_iff_reaches_K (envOf vn bind none) kids (instantiate ρ t.segs) 0] at h
+  cases hd : dispatchK (envOf vn bind none) kids (instantiate ρ t.segs) 0 with
+  | unreachable d' =>
+    exact absurd hd (C05_regenerated_action_never_unreachable vn inv kids hinst t ht c hc ρ hpres _ 0 d')
+  | failure d' v =>
+    obtain ⟨args, a, h1, h2, h3⟩ := C05_action_refusal_is_false_expected_guard vn bind none inv kids hinst t ht c hc ρ hpres 0 d' v hd
+    exact ⟨args, a, v, h1, h2, h3⟩
+  | reached hh a => rw [hd] at h; simp [Outcome.isReached] at h
+
+end Primaite.Request
